@@ -1057,6 +1057,7 @@ def _sign_zone_nsec(
         rdclass: dns.rdataclass.RdataClass,
         ttl: int,
         rrset_signer: RRsetSigner | None = None,
+        delegation: bool = False,
     ) -> None:
         """NSEC zone signer helper"""
         mandatory_types = set(
@@ -1064,9 +1065,12 @@ def _sign_zone_nsec(
         )
         node = txn.get_node(name)
         if node and next_secure:
-            types = (
-                set([rdataset.rdtype for rdataset in node.rdatasets]) | mandatory_types
-            )
+            types = set([rdataset.rdtype for rdataset in node.rdatasets])
+            if delegation:
+                # RFC 4035 section 2.3: at a delegation point only the NS RRset and
+                # the RRsets the parent is authoritative for (DS) have their bits set.
+                types &= {dns.rdatatype.RdataType.NS, dns.rdatatype.RdataType.DS}
+            types |= mandatory_types
             windows = Bitmap.from_rdtypes(list(types))
             rrset = dns.rrset.from_rdata(
                 name,
@@ -1085,6 +1089,7 @@ def _sign_zone_nsec(
     rrsig_ttl = zone.get_soa(txn).minimum
     delegation = None
     last_secure = None
+    last_secure_is_delegation = False
 
     for name in sorted(txn.iterate_names()):
         if delegation and name.is_subdomain(delegation):
@@ -1113,12 +1118,27 @@ def _sign_zone_nsec(
 
         # We need "is not None" as the empty name is False because its length is 0.
         if last_secure is not None:
-            _txn_add_nsec(txn, last_secure, name, zone.rdclass, rrsig_ttl, rrset_signer)
+            _txn_add_nsec(
+                txn,
+                last_secure,
+                name,
+                zone.rdclass,
+                rrsig_ttl,
+                rrset_signer,
+                last_secure_is_delegation,
+            )
         last_secure = name
+        last_secure_is_delegation = bool(delegation)
 
     if last_secure is not None:
         _txn_add_nsec(
-            txn, last_secure, zone.origin, zone.rdclass, rrsig_ttl, rrset_signer
+            txn,
+            last_secure,
+            zone.origin,
+            zone.rdclass,
+            rrsig_ttl,
+            rrset_signer,
+            last_secure_is_delegation,
         )
 
 
